@@ -76,7 +76,7 @@ def sAdd (s : SState) (a : AddArgs) : SState × Out :=
   | .ok f =>
     match mkThreshold s.levels a.level with
     | .error e => (s, .err e)
-    | .ok t => ({ s with regs := s.regs ++ [(id, ⟨t, f, a.stopFails⟩)] }, .id id)
+    | .ok t => ({ s with regs := s.regs ++ [(id, ⟨t, f, a.stopFails⟩)] }, .id id)   -- `colorize` is irrelevant to dispatch
 
 def sPrim (orc : Oracle) (s : SState) : Op → SState × Out
   | .add a => sAdd s a
